@@ -1044,10 +1044,18 @@ def r5_identity_shortcut(ctx, rid):
                       label="whole-vector chain input requires identity indices")
 
 
+
+def r_perm_identity(ctx, rid):
+    """Index-dropping shortcuts must be guarded by an exact identity test of the index list (shared lint, see _identity_lint)."""
+    from ._identity_lint import permutation_test_as_identity
+    permutation_test_as_identity(ctx, rid)
+
+
 RULES = [
     ("C11-R1", r1_order_and_rate, 5),
     ("C11-R2", r2_stage_equations, 8),
     ("C11-R3", r3_grouping_key, 3),
     ("C11-R4", r4_delays_stay_continuous, 5),
     ("C11-R5", r5_identity_shortcut, 1),
+    ("C11-R6", r_perm_identity, 1),
 ]
